@@ -241,4 +241,25 @@ func init() {
 		)
 		props["C10"] = p
 	}
+
+	// ---- C15 ----
+	{
+		p := &Prop{ID: "C15", Outside: []string{
+			"the regular expressions and globs themselves: every match outcome is a free boolean (the filter is decided for all outcome matrices)",
+			"arbitrary directory layouts, symlinks, flag parsing, the process exit status through Command.Main",
+			"working directories / spellings other than the 4 x 3 family of the cwd harness (a finite family explored exhaustively, not a quantification over all paths)",
+			"more than 4 diagnostics / 2 CLI patterns / 2 path configs (quick), 6 / 2 / 2 (thorough)",
+		}}
+		p.Quick = []HRun{
+			{Entry: "HarnessC15Filter", Args: []int64{3, 2, 2}, Bound: "3 diagnostics x 2 CLI patterns x 2 path configs: all 2^14 match/glob outcome matrices, symbolic map order", Require: []string{"kept", "dropped"}},
+			{Entry: "HarnessC15Filter", Args: []int64{4, 1, 2}, Bound: "4 diagnostics x 1 CLI pattern x 2 path configs", Require: []string{"kept", "dropped"}},
+			{Entry: "HarnessC15Filter", Args: []int64{4, 2, 0}, Bound: "4 diagnostics x 2 CLI patterns, no config", Require: []string{"kept", "dropped"}},
+			{Entry: "HarnessC15Cwd", Bound: "working directory in {root, parent, nested, unrelated} x spelling in {absolute, relative, ./relative}", Require: []string{"linted"}},
+		}
+		p.Thorough = append(append([]HRun{}, p.Quick...),
+			HRun{Entry: "HarnessC15Filter", Args: []int64{6, 2, 2}, Bound: "6 diagnostics x 2 CLI patterns x 2 path configs", Require: []string{"kept", "dropped"}},
+			HRun{Entry: "HarnessC15Filter", Args: []int64{5, 3, 3}, Bound: "5 diagnostics x 3 CLI patterns x 3 path configs", Require: []string{"kept", "dropped"}},
+		)
+		props["C15"] = p
+	}
 }
